@@ -360,6 +360,11 @@ def _references_complete(ck, w):
         b, e = ins[0]
         src = flow.origins_x(lib, b, e.args[1], through_calls=[r"Iterator>::next$", r"IntoIterator>?::into_iter$", r"Iterator::flat_map$", r"Iterator::flatten$", r"Iterator::map$"])
         ok_src = any("hash" in (x[3] if x[0] == "call" else x[2] if x[0] in ("param", "upvar") else ()) for x in src)
+        if not ok_src and any(x[0] == "via" and re.search(r"Iterator>?::map$", x[1]) for x in src):
+            # `.map(|addr| addr.hash)`: the field is taken inside the adapter's closure
+            for cb_ in fam:
+                if cb_.kind == "closure" and any(x[0] == "param" and "hash" in x[2] for x in flow.origins(cb_, 0)):
+                    ok_src = True
         if not ok_src:
             problems.append("inserted value is not an address hash: %s" % flow.origin_summary(src))
     # every item produced by the address iteration is inserted: no path back to the loop head around the insert
